@@ -1,6 +1,7 @@
-(* C12 — what the code as it is (old_code) violates: witnesses evaluated by vm_compute (each one is
-   replayed on the real engine by the scripted cases of harness/c12/gen.go), the strongest statements
-   that remain true for it, and the remaining theorems (primary keys, failed statements, INSERT). *)
+(* C12 — history: what the code BEFORE the repairs c876bb2 / 12bf3b7 / a77403f (old_code) violated:
+   witnesses evaluated by vm_compute (each one is still executed on the real engine by the scripted
+   cases of harness/c12/gen.go, where a recurrence is now a VIOLATION), and the partial statement that
+   was true of it; plus lemmas valid for any code (primary keys, failed events). *)
 From V Require Import SQLCons.Model SQLCons.Spec SQLCons.Basics SQLCons.Steps SQLCons.Frame SQLCons.RowInv SQLCons.Unique.
 From Coq Require Import ZArith Lia.
 From Coq Require Import ZifyN ZifyNat ZifyBool.
